@@ -218,6 +218,60 @@ Runtime::from(
 //@end
 
 
+// ===================================================================== Arbiter::with_tokio_rt: the creating thread's side (C09)
+#[verifier::external_body]
+pub struct OpaqueClosure { _p: () }
+/// R11d: the thread body (verified above as `arbiter_thread_body`)
+#[verifier::external_body]
+pub fn vopaque_closure() -> (r: OpaqueClosure) { unimplemented!() }
+#[verifier::external_body]
+pub struct String { _p: () }
+impl Clone for String { #[verifier::external_body] fn clone(&self) -> (r: String) { unimplemented!() } }
+#[verifier::external_body]
+pub fn vfmt_string() -> (r: String) { unimplemented!() }
+#[verifier::external_body]
+pub struct ThreadHandle { _p: () }
+#[verifier::external_body]
+pub struct ThreadBuilder { _p: () }
+impl ThreadBuilder {
+    #[verifier::external_body] pub fn new() -> (r: ThreadBuilder) { unimplemented!() }
+    #[verifier::external_body] pub fn name(self, n: String) -> (r: ThreadBuilder) { unimplemented!() }
+    #[verifier::external_body] pub fn spawn(self, f: OpaqueClosure) -> (r: Result<ThreadHandle, IoError>) { unimplemented!() }
+}
+pub mod thread { pub use crate::ThreadBuilder as Builder; }
+#[verifier::external_body]
+#[derive(Debug)]
+pub struct StdRecvError { _p: () }
+#[verifier::external_body]
+pub struct StdReceiver { _p: () }
+impl StdReceiver {
+    /// blocks until the arbiter thread has sent its "ready" (the thread sends it after registering: arbiter_thread_body)
+    #[verifier::external_body] pub fn recv(&self) -> (r: Result<(), StdRecvError>) ensures r is Ok { unimplemented!() }
+}
+pub mod std { pub mod sync { pub mod mpsc {
+    use vstd::prelude::*;
+    #[verifier::external_body]
+    pub fn channel() -> (r: (crate::StdSender, crate::StdReceiver)) { unimplemented!() }
+} } }
+//@check_struct file=actix-rt/src/arbiter.rs name=Arbiter fields=tx,thread_handle
+pub struct ArbiterOwner { pub tx: mpsc::UnboundedSender<ArbiterCommand>, pub thread_handle: ThreadHandle }
+
+impl Arbiter {
+//@extract file=actix-rt/src/arbiter.rs item="impl Arbiter / fn with_tokio_rt" ret=r props=C09,C10 name=arbiter::with_tokio_rt_outer opaque_move_closures intended_panics tls_state="CURRENT:current" tls_calls="System::current" trace_calls="ready_rx.recv" sig_replace="F: FnOnce() -> tokio::runtime::Runtime + Send + 'static,=>F: FnOnce() -> TokioRuntime,;;-> (r: Arbiter)=>-> (r: ArbiterOwner)"
+//@replace pattern="std::sync::mpsc::channel::<()>()" rule=R15
+std::sync::mpsc::channel()
+//@replace pattern="Arbiter { tx, thread_handle }" rule=R15
+ArbiterOwner { tx, thread_handle }
+//@spec
+    requires old(r25_tls).current.v is Some,
+//@insert before="ArbiterOwner { tx, thread_handle }"
+        // the creating thread returns only after it has WAITED for the new thread's "ready" — which that thread sends after
+        // it has registered the arbiter with the system (arbiter_thread_body): a system stop issued right after
+        // `Arbiter::new()` returns reaches the new arbiter   [C09]
+        assert(r24_trace == seq![0int]);   // [C09]
+//@end
+}
+
 // ===================================================================== System::with_tokio_rt: wiring of a new system (C09)
 pub mod oneshot {
     use vstd::prelude::*;
